@@ -220,3 +220,84 @@ func TestKnownFindings(t *testing.T) {
 	ev.SkipIfReplayingOther(t)
 	_ = probe.F9Reproduces // C02 only leaves the F9 class off its YAML leg; the finding is reported by C03/C08/C09
 }
+
+// ---------------------------------------------------------------------------
+// Deep documents (doc.GenDeep). Marshalling writes some spellings one or two levels deeper than they
+// were read (a bare step list gains `steps`, plugins written as one mapping become a list of
+// one-entry mappings, a bare-string plugin gains its null config, `cache: path` becomes
+// {paths: [path]}): whatever parses and signs must still re-parse and verify.
+
+var recDeep = ev.New("TestPropDeepDocumentsRoundTrip", "well-formed documents nested 1-320 levels deep (nested groups and / or data inside plugin configs and unknown fields; half of the depths within 6 of a round number) ending in every shorthand that is written back deeper than it was read: parse -> SignSteps -> marshal (JSON, YAML) -> Parse and, per step, CommandStep.UnmarshalJSON -> Verify; a document the first parse refuses is excluded (counted); non-trivial = deeper than 40 levels with a command step; distinct by text")
+
+func TestPropDeepDocumentsRoundTrip(t *testing.T) {
+	ctx := context.Background()
+	pool := keys.Pool()
+	ev.Check(t, 1600, 40000, func(t *rapid.T) {
+		dd := doc.GenDeep(t)
+		kp := pool[rapid.IntRange(0, 1).Draw(t, "fast")]
+		p, err := pipeline.Parse(bytes.NewReader(dd.Text))
+		if err != nil || p == nil {
+			recDeep.Excluded("first parse refuses the document (C03 decides that)")
+			return
+		}
+		penv := map[string]string{"DEPLOY": "1"}
+		if err := signature.SignSteps(ctx, p.Steps, kp.Priv, "repo", signature.WithEnv(penv)); err != nil {
+			t.Fatalf("SignSteps: %v\n%s", err, dd.Text[:min(len(dd.Text), 400)])
+		}
+		nsteps := 0
+		walk(p.Steps, 0, func(*pipeline.CommandStep, int) { nsteps++ })
+		verifyAll := func(how string, q *pipeline.Pipeline) {
+			n := 0
+			walk(q.Steps, 0, func(cs *pipeline.CommandStep, _ int) {
+				n++
+				if cs.Signature == nil {
+					t.Fatalf("[%s] the command step lost its signature (depth %d)", how, dd.Depth)
+				}
+				sf := &signature.CommandStepWithInvariants{CommandStep: *cs, RepositoryURL: "repo"}
+				if err := signature.Verify(ctx, cs.Signature, kp.Pub, sf, signature.WithEnv(penv)); err != nil {
+					t.Fatalf("[%s] signature no longer verifies (depth %d, tail %d): %v", how, dd.Depth, dd.Tail, err)
+				}
+			})
+			if n != nsteps {
+				t.Fatalf("[%s] %d command steps after the round trip, %d before (depth %d)", how, n, nsteps, dd.Depth)
+			}
+		}
+		jb, err := json.Marshal(p)
+		if err != nil {
+			t.Fatalf("json.Marshal: %v", err)
+		}
+		pj, err := pipeline.Parse(bytes.NewReader(jb))
+		if err != nil || pj == nil {
+			t.Fatalf("re-parsing the JSON of a signed pipeline fails (document depth %d, tail %d, groups %d, data levels %d): %v", dd.Depth, dd.Tail, dd.Groups, dd.DataLevels, err)
+		}
+		verifyAll("Parse(json)", pj)
+		yb, err := yaml.Marshal(p)
+		if err != nil {
+			t.Fatalf("yaml.Marshal: %v", err)
+		}
+		py, err := pipeline.Parse(bytes.NewReader(yb))
+		if err != nil || py == nil {
+			t.Fatalf("re-parsing the YAML of a signed pipeline fails (document depth %d, tail %d, groups %d, data levels %d): %v", dd.Depth, dd.Tail, dd.Groups, dd.DataLevels, err)
+		}
+		verifyAll("Parse(yaml)", py)
+		walk(p.Steps, 0, func(cs *pipeline.CommandStep, _ int) {
+			sb, err := json.Marshal(cs)
+			if err != nil {
+				t.Fatalf("json.Marshal(step): %v", err)
+			}
+			var back pipeline.CommandStep
+			if err := json.Unmarshal(sb, &back); err != nil {
+				t.Fatalf("CommandStep.UnmarshalJSON fails on a signed step's own JSON (depth %d): %v", dd.Depth, err)
+			}
+			sf := &signature.CommandStepWithInvariants{CommandStep: back, RepositoryURL: "repo"}
+			if back.Signature == nil || signature.Verify(ctx, back.Signature, kp.Pub, sf, signature.WithEnv(penv)) != nil {
+				t.Fatalf("[CommandStep.UnmarshalJSON] signature lost or no longer verifies (depth %d, tail %d)", dd.Depth, dd.Tail)
+			}
+		})
+		nt := dd.Depth > 40 && nsteps > 0
+		recDeep.Case(ev.HashBytes(dd.Text), nt, dd.Classes()...)
+		recDeep.MaybeSample(nt, func() any {
+			return map[string]any{"depth": dd.Depth, "groups": dd.Groups, "data_levels": dd.DataLevels, "tail": dd.Tail}
+		})
+	})
+}
